@@ -10,6 +10,44 @@ mod outcome;
 use rand::rngs::StdRng;
 use rand::SeedableRng;
 
+/// A single allocation request of 2 GiB or more never comes from the harness or from the library on the inputs the
+/// drivers generate; it is what a runaway computation in the code under test looks like (e.g. an extrapolation whose
+/// distances stopped growing). A failed allocation aborts the process, which `catch_unwind` cannot turn into data, so
+/// the requesting thread is parked instead: the watchdog of `outcome::guarded` then records the call as a hang
+/// ("does not return"), which the trace specifications reject, and the runner restarts the driver behind it.
+struct CappedAlloc;
+const ALLOC_CAP: usize = 2 << 30;
+fn park_forever() {
+    loop {
+        std::thread::sleep(std::time::Duration::from_secs(3600));
+    }
+}
+unsafe impl std::alloc::GlobalAlloc for CappedAlloc {
+    unsafe fn alloc(&self, l: std::alloc::Layout) -> *mut u8 {
+        if l.size() >= ALLOC_CAP {
+            park_forever();
+        }
+        std::alloc::System.alloc(l)
+    }
+    unsafe fn alloc_zeroed(&self, l: std::alloc::Layout) -> *mut u8 {
+        if l.size() >= ALLOC_CAP {
+            park_forever();
+        }
+        std::alloc::System.alloc_zeroed(l)
+    }
+    unsafe fn dealloc(&self, p: *mut u8, l: std::alloc::Layout) {
+        std::alloc::System.dealloc(p, l)
+    }
+    unsafe fn realloc(&self, p: *mut u8, l: std::alloc::Layout, n: usize) -> *mut u8 {
+        if n >= ALLOC_CAP {
+            park_forever();
+        }
+        std::alloc::System.realloc(p, l, n)
+    }
+}
+#[global_allocator]
+static GLOBAL: CappedAlloc = CappedAlloc;
+
 pub struct Ctx {
     pub rng: StdRng,
     pub seed: u64,
